@@ -228,8 +228,8 @@ func reportObligations(rep *core.Report, rr *core.RuleRun, an *obl.Analyzer, fil
 }
 
 func kindName(k string) string {
-	return map[string]string{"K1": "index/slice bounds", "K2": "nil dereference", "K3": "type assertion", "K4": "division by zero", "K5": "allocation size", "K6": "process exit / explicit panic",
-		"K7": "precondition of a library call", "K10": "shift count", "K11": "bounded call depth"}[k]
+	return map[string]string{"K1": "index/slice bounds", "K2": "nil dereference", "K3": "type assertion", "K4": "division by zero", "K5": "make size valid", "K6": "process exit / explicit panic",
+		"K7": "precondition of a library call", "K10": "shift count", "K11": "bounded call depth", "K12": "allocation size bounded"}[k]
 }
 
 // externSummary lists the non-repository callees the analysis met, for the evidence.
